@@ -119,6 +119,8 @@ type Run struct {
 	exhaustive  bool
 	explanation string
 	replaying   bool
+	shard       shardCfg
+	outcomeKeys map[string]struct{}
 }
 
 func (r *Run) Quick() bool    { return r.Tier != "thorough" }
@@ -143,11 +145,18 @@ func (r *Run) NontrivialH(h uint64)  { r.nontrivial.add(h) }
 
 // NontrivialN counts n non-trivial cases that are distinct by construction (distinct ranks of an enumeration).
 func (r *Run) NontrivialN(n int64) { r.nontrivialN.Add(n) }
-func (r *Run) Outcome(key string)  { r.outcomes.add(HashString(key)) }
-func (r *Run) OutcomeH(h uint64)   { r.outcomes.add(h) }
-func (r *Run) Evaluations() int64  { return r.evaluations.Load() }
-func (r *Run) Assume(s string)     { r.mu.Lock(); r.assumptions = append(r.assumptions, s); r.mu.Unlock() }
-func (r *Run) Explain(s string)    { r.mu.Lock(); r.explanation = s; r.mu.Unlock() }
+func (r *Run) Outcome(key string) {
+	r.outcomes.add(HashString(key))
+	if r.outcomeKeys != nil {
+		r.mu.Lock()
+		r.outcomeKeys[key] = struct{}{}
+		r.mu.Unlock()
+	}
+}
+func (r *Run) OutcomeH(h uint64)  { r.outcomes.add(h) }
+func (r *Run) Evaluations() int64 { return r.evaluations.Load() }
+func (r *Run) Assume(s string)    { r.mu.Lock(); r.assumptions = append(r.assumptions, s); r.mu.Unlock() }
+func (r *Run) Explain(s string)   { r.mu.Lock(); r.explanation = s; r.mu.Unlock() }
 func (r *Run) Set(k string, v interface{}) {
 	r.mu.Lock()
 	r.extra[k] = v
@@ -232,6 +241,8 @@ func (r *Run) Parallel(n, chunk int64, fn func(worker int, lo, hi int64)) bool {
 	var wg sync.WaitGroup
 	complete := atomic.Bool{}
 	complete.Store(true)
+	base := r.shard.chunkBase
+	r.shard.chunkBase += (n + chunk - 1) / chunk
 	for w := 0; w < r.Workers; w++ {
 		wg.Add(1)
 		go func(w int) {
@@ -240,6 +251,9 @@ func (r *Run) Parallel(n, chunk int64, fn func(worker int, lo, hi int64)) bool {
 				lo := next.Add(chunk) - chunk
 				if lo >= n {
 					return
+				}
+				if !r.chunkAllowed(base + lo/chunk) {
+					continue
 				}
 				if r.Expired() {
 					complete.Store(false)
@@ -393,6 +407,12 @@ func Main() {
 	prebuild := fs.Bool("prebuild", false, "only compile the helper binaries of this check (warms the build cache)")
 	budget := fs.Int("budget", 0, "wall-clock budget in seconds (0 = tier default)")
 	workers := fs.Int("workers", runtime.NumCPU(), "worker goroutines")
+	shard := fs.String("shard", "", "k/P: execute only the chunks with sequence number = k mod P (worker of RunSharded)")
+	skipUntil := fs.Int64("skip-until", -1, "skip chunks up to this sequence number")
+	onlyChunk := fs.Int64("only-chunk", -1, "execute only this chunk")
+	progress := fs.String("progress", "", "file receiving the sequence number of the chunk being executed")
+	trace := fs.Bool("trace", false, "announce every case before executing it")
+	workerJSON := fs.Bool("worker-json", false, "print a WORKER-RESULT line instead of writing evidence")
 	fs.Parse(os.Args[2:])
 	c, ok := registry[id]
 	if !ok {
@@ -421,6 +441,17 @@ func Main() {
 		nontrivial: newSet(), outcomes: newSet(), violations: map[string]*Violation{},
 		known: loadKnown(id), knownSeen: map[string]int64{}, extra: map[string]interface{}{}}
 	r.Deadline = r.Start.Add(time.Duration(b) * time.Second)
+	r.shard.skipUntil, r.shard.onlyChunk, r.shard.progress, r.shard.trace, r.shard.json = *skipUntil, *onlyChunk, *progress, *trace, *workerJSON
+	if *shard != "" {
+		fmt.Sscanf(*shard, "%d/%d", &r.shard.idx, &r.shard.cnt)
+	}
+	if *workerJSON {
+		r.known = map[string]string{} // the parent decides what is a known finding
+		r.outcomeKeys = map[string]struct{}{}
+		c.Run(r)
+		r.emitWorkerResult()
+		os.Exit(0)
+	}
 	if *replay != "" {
 		r.replaying = true
 		os.Setenv("VERIF_REPLAY_PATH", *replay)
